@@ -186,6 +186,12 @@ def w_constructors(ctx, rng, idx):
     call('tt.eye', tt.eye, rows, prop=P)
     inds = [int(rng.integers(0, x)) for x in rows]
     call('tt.unit', tt.unit, rows, inds, prop=P)
+    if rng.random() < 0.3:
+        # positions counted from the back (NumPy index semantics), as Python ints, NumPy ints, or in an integer array
+        neg = [int(i) - int(x) if rng.random() < 0.6 else int(i) for i, x in zip(inds, rows)]
+        form = int(rng.integers(0, 3))
+        neg_arg = neg if form == 0 else [np.int64(i) for i in neg] if form == 1 else np.array(neg, dtype=[np.int64, np.int32, np.int8][int(rng.integers(0, 3))])
+        call('tt.unit', tt.unit, rows, neg_arg, prop=P, tags=['positions_from_the_back'])
 
 
 WORKLOADS = [
